@@ -1,0 +1,68 @@
+//go:build verif
+
+package keeper
+
+// Contracts for the deductive verifier in /verif (govc). Comment-only; compiled only with -tags verif.
+
+//@ import host modules/core/24-host
+
+//@ contract (*Keeper).RecvPacket
+//@   let pk = msg.Packet
+//@   let P = pk.DestinationPort
+//@   let C = pk.DestinationChannel
+//@   let s = pk.Sequence
+//@   let svc = k.ChannelKeeper.storeService
+//@   let S0 = kv(goCtx, svc)
+//@   let ch = k.ChannelKeeper.GetChannel(goCtx, P, C)
+//@   let n0 = calls("OnRecvPacket")
+//@   let rkey = host.PacketReceiptKey(P, C, s)
+//@   let nkey = host.NextSequenceRecvKey(P, C)
+//@   let akey = host.PacketAcknowledgementKey(P, C, s)
+//@   modifies world(goCtx), calls OnRecvPacket, ghost lastRecvAck
+//@   ensures at_most_once: calls("OnRecvPacket") == n0 || calls("OnRecvPacket") == n0 + 1
+//@   ensures only_fresh: calls("OnRecvPacket") == n0 + 1 ==> !received1(S0, ch.Ordering, P, C, s)
+//@   ensures noop_pure: err == nil && result.Result == channeltypes.NOOP ==> world(goCtx) == old(world(goCtx)) && calls("OnRecvPacket") == n0
+//@   ensures noop_only_if_received: err == nil && result.Result == channeltypes.NOOP ==> received1(S0, ch.Ordering, P, C, s)
+//@   ensures success_called: err == nil ==> result != nil && (result.Result == channeltypes.NOOP || (result.Result == channeltypes.SUCCESS && calls("OnRecvPacket") == n0 + 1))
+//@   ensures not_called_unchanged: err != nil && calls("OnRecvPacket") == n0 ==> world(goCtx) == old(world(goCtx))
+//@   ensures failed_ack_discards_app_state_unordered: err == nil && calls("OnRecvPacket") == n0 + 1 && !isNil(lastRecvAck) && !ackSuccess(lastRecvAck) && ch.Ordering == channeltypes.UNORDERED ==> world(goCtx) == withKV(old(world(goCtx)), svc, set(set(S0, rkey, str(1)), akey, get(kv(goCtx, svc), akey))) && get(kv(goCtx, svc), akey) != ""
+//@   ensures failed_ack_discards_app_state_ordered: err == nil && calls("OnRecvPacket") == n0 + 1 && !isNil(lastRecvAck) && !ackSuccess(lastRecvAck) && ch.Ordering == channeltypes.ORDERED ==> world(goCtx) == withKV(old(world(goCtx)), svc, set(set(S0, nkey, be64((s + 1) % 18446744073709551616)), akey, get(kv(goCtx, svc), akey))) && get(kv(goCtx, svc), akey) != ""
+
+//@ contract (*Keeper).Acknowledgement
+//@   let pk = msg.Packet
+//@   let svc = k.ChannelKeeper.storeService
+//@   let S0 = kv(goCtx, svc)
+//@   let ckey = host.PacketCommitmentKey(pk.SourcePort, pk.SourceChannel, pk.Sequence)
+//@   let n0 = calls("OnAcknowledgementPacket")
+//@   modifies world(goCtx), calls OnAcknowledgementPacket
+//@   ensures at_most_once: calls("OnAcknowledgementPacket") == n0 || calls("OnAcknowledgementPacket") == n0 + 1
+//@   ensures only_committed: calls("OnAcknowledgementPacket") == n0 + 1 ==> get(S0, ckey) != "" && get(S0, ckey) == channeltypes.CommitPacket(pk)
+//@   ensures noop_pure: err == nil && result.Result == channeltypes.NOOP ==> world(goCtx) == old(world(goCtx)) && calls("OnAcknowledgementPacket") == n0 && get(S0, ckey) == ""
+//@   ensures success_called: err == nil ==> result != nil && (result.Result == channeltypes.NOOP || (result.Result == channeltypes.SUCCESS && calls("OnAcknowledgementPacket") == n0 + 1))
+//@   ensures not_called_unchanged: err != nil && calls("OnAcknowledgementPacket") == n0 ==> world(goCtx) == old(world(goCtx))
+
+//@ contract (*Keeper).Timeout
+//@   let pk = msg.Packet
+//@   let svc = k.ChannelKeeper.storeService
+//@   let S0 = kv(goCtx, svc)
+//@   let ckey = host.PacketCommitmentKey(pk.SourcePort, pk.SourceChannel, pk.Sequence)
+//@   let n0 = calls("OnTimeoutPacket")
+//@   requires isType(msg.ProofHeight, clienttypes.Height)
+//@   modifies world(goCtx), calls OnTimeoutPacket
+//@   ensures at_most_once: calls("OnTimeoutPacket") == n0 || calls("OnTimeoutPacket") == n0 + 1
+//@   ensures only_committed: calls("OnTimeoutPacket") == n0 + 1 ==> get(S0, ckey) != "" && get(S0, ckey) == channeltypes.CommitPacket(pk)
+//@   ensures noop_pure: err == nil && result.Result == channeltypes.NOOP ==> world(goCtx) == old(world(goCtx)) && calls("OnTimeoutPacket") == n0 && get(S0, ckey) == ""
+//@   ensures success_called: err == nil ==> result != nil && (result.Result == channeltypes.NOOP || (result.Result == channeltypes.SUCCESS && calls("OnTimeoutPacket") == n0 + 1))
+//@   ensures not_called_unchanged: err != nil && calls("OnTimeoutPacket") == n0 ==> world(goCtx) == old(world(goCtx))
+
+//@ contract (*Keeper).TimeoutOnClose
+//@   let pk = msg.Packet
+//@   let svc = k.ChannelKeeper.storeService
+//@   let S0 = kv(goCtx, svc)
+//@   let ckey = host.PacketCommitmentKey(pk.SourcePort, pk.SourceChannel, pk.Sequence)
+//@   let n0 = calls("OnTimeoutPacket")
+//@   modifies world(goCtx), calls OnTimeoutPacket
+//@   ensures at_most_once: calls("OnTimeoutPacket") == n0 || calls("OnTimeoutPacket") == n0 + 1
+//@   ensures only_committed: calls("OnTimeoutPacket") == n0 + 1 ==> get(S0, ckey) != "" && get(S0, ckey) == channeltypes.CommitPacket(pk)
+//@   ensures noop_pure: err == nil && result.Result == channeltypes.NOOP ==> world(goCtx) == old(world(goCtx)) && calls("OnTimeoutPacket") == n0 && get(S0, ckey) == ""
+//@   ensures not_called_unchanged: err != nil && calls("OnTimeoutPacket") == n0 ==> world(goCtx) == old(world(goCtx))
